@@ -52,6 +52,22 @@ def handle (line : String) : String :=
         | .error _ => "err"
         | .ok s => if denseToSparse D == s && sparseToDense s == D then "same" else "differ"
       pure s!"{D.svecs.length} {multi} {sp} {vecs}"
+    | "svecstol" =>
+      -- svecstol tol G T npts pts nto nfrom pto pfrom : per pair `count v...` with the tolerance rule in length
+      let (tol, c) ← c.rat?
+      let (G, c) ← readM3Rat c
+      let (T, c) ← readM3Int c
+      let (np, c) ← c.nat?
+      let (pts, c) ← readV3Ints c np
+      let (nto, c) ← c.nat?
+      let (nfrom, c) ← c.nat?
+      let (pto, c) ← readV3Rats c nto
+      let (pfrom, c) ← readV3Rats c nfrom
+      if !c.atEnd then none
+      let cells := (pairs pto pfrom).map fun (a, b) => implShortestTol tol G T pts a b
+      let counts := " ".intercalate (cells.map fun v => toString v.length)
+      let vecs := " ".intercalate (cells.flatten.map showV3Rat)
+      pure s!"{counts} {vecs}"
     | "spec" =>
       -- spec G d : lattice translations of the global minimum images
       let (G, c) ← readM3Rat c
